@@ -36,6 +36,19 @@ def path_name(e):
     return None
 
 
+def loop_bound_desc(s):
+    """(operator, member or parameter the loop runs to) when the bound is a plain scalar name"""
+    cnd = s.get('c')
+    if not isinstance(cnd, dict) or cnd.get('k') != 'bin' or cnd.get('op') not in ('<', '<='):
+        return None
+    b = cnd['a'][1]
+    while isinstance(b, dict) and b.get('k') == 'cast':
+        b = b.get('e')
+    if isinstance(b, dict) and b.get('k') == 'mem' and isinstance(b.get('o'), dict) and b['o'].get('k') == 'this':
+        return (cnd['op'], b['n'])
+    return None
+
+
 class Fmt:
     """token stream of a writer (<< on an ostream parameter) or reader (>> on an istream
     parameter / TMCG_ParseHelper calls on the string parameter)"""
@@ -126,7 +139,7 @@ class Fmt:
             body = cnd + body
             if not body:
                 return pre
-            return pre + [('loop', tuple(body))]
+            return pre + [('loop', tuple(body), loop_bound_desc(s))]
         if k == 'try':
             return self.stmt(s['b'])
         if k in ('switch', 'case', 'default', 'label'):
@@ -229,12 +242,12 @@ def stream_signature(toks, strip_sizes=False):
         elif t[0] == 'loop':
             inner = stream_signature(t[1])
             if inner:
-                out.append(('loop', tuple(inner)))
+                out.append(('loop', tuple(inner), t[2] if len(t) > 2 else None))
     return tuple(out)
 
 
 def show_stream(sig):
-    return ' '.join('(%s)*' % show_stream(x[1]) if isinstance(x, tuple) else str(x) for x in sig)
+    return ' '.join(('(%s)*%s' % (show_stream(x[1]), ('{%s %s}' % x[2]) if len(x) > 2 and x[2] else '')) if isinstance(x, tuple) else str(x) for x in sig)
 
 
 DELIM_TYPES = ['TMCG_Card', 'VTMF_Card', 'TMCG_CardSecret', 'VTMF_CardSecret', 'TMCG_PublicKey', 'TMCG_SecretKey']
@@ -311,7 +324,7 @@ def norm_stream(sig):
     out = []
     for x in sig:
         if isinstance(x, tuple):
-            out.append(('loop', norm_stream(x[1])))
+            out.append(('loop', norm_stream(x[1]), x[2] if len(x) > 2 else None))
         else:
             s = str(x)
             if s.startswith('#') or s.startswith('$') or s == '?':
@@ -330,6 +343,11 @@ def match_stream(a, b):
             return False
         if isinstance(x, tuple):
             if not match_stream(x[1], y[1]):
+                return False
+            bx = x[2] if len(x) > 2 else None
+            by = y[2] if len(y) > 2 else None
+            # both loops run to a scalar member: it must be the same member with the same comparison
+            if bx is not None and by is not None and bx != by:
                 return False
         elif x != y and '<n>' not in (x, y):
             return False
